@@ -541,7 +541,7 @@ LINKS = ["https://example.org/a?b=c", "foo", "#top", ";x", "a=b;c:d#e", "x:y=z",
 # Style names with upper-case letters, and names that differ only in case, are generated: configparser would lower-case
 # option names (fixed in /repo 25fc381: optionxform = str).
 # TODO(audit-2): names using configparser syntax (':' / '=' inside, leading '#' ';' '[', outer blanks, empty) do not
-#   survive the round trip (witness /tmp/audit-2/C20/witness_keys.py); no small repair - not generated.
+#   survive the round trip (witness audit_artifacts/C20/witness_keys.py); no small repair - not generated.
 NAME_FORMS = ["st%d.x-%d", "my_style_%d_%d", "a.b.c%d.%d", "with space %d %d", "9lives%d-%d", "x%d!%d", "markdown.h%d%d",
               "Warn%d.Level-%d", "UPPER_%d_%d"]
 FIXED_NAMES = ["repr.number", "rule.line", "bold", "red", "none", "on", "link", "not", "default", "styles", "x", "a#b", "a;b",
